@@ -328,6 +328,17 @@ def _str_percent_format(self, other):
                     _hit("M3")
                     raise TypeError("not enough arguments for format string" if len(specs) > len(args)
                                     else "not all arguments converted during string formatting")
+                if "c" not in specs and all(isinstance(a, (int, SymbolicInt)) and not isinstance(a, bool) for a in args):
+                    # with integer arguments (and no %c, whose range check depends on the value) CPython's verdict on
+                    # the template - incomplete format, unsupported conversion, arity - does not depend on the values
+                    exc = None
+                    try:
+                        str.__mod__(self, tuple(0 if isinstance(a, SymbolicInt) else a for a in args))
+                    except (ValueError, TypeError) as e:
+                        exc = e
+                    if exc is not None:
+                        _hit("M3")
+                        raise type(exc)(*exc.args)
                 pieces = _percent_pieces(self, args)
                 if pieces is None:
                     _fallback("M3")
